@@ -125,6 +125,15 @@ func (p c03) grammar(c *core.C, text string, want model.Ver) {
 	if err := u.UnmarshalControl(text); err != nil || modVer(u) != want {
 		c.Failf("UnmarshalControl(%q) into a fresh value = %+v, %v; want %+v", text, u, err, want)
 	}
+	// ... and into a variable that holds an earlier version with every part set
+	re := version.Version{Epoch: 7, Version: "9.9-x", Revision: "8"}
+	if err := re.UnmarshalControl(text); err != nil || modVer(re) != want {
+		c.Failf("UnmarshalControl(%q) into a variable that held 7:9.9-x-8 = %+v, %v; want %+v", text, re, err, want)
+	}
+	re2 := version.Version{Epoch: 7, Version: "9.9-x", Revision: "8"}
+	if err := re2.UnmarshalText([]byte(text)); err != nil || modVer(re2) != want {
+		c.Failf("UnmarshalText(%q) into a variable that held 7:9.9-x-8 = %+v, %v; want %+v", text, re2, err, want)
+	}
 	trivial := true
 	if strings.Contains(text, ":") {
 		c.Cover("shape:epoch")
